@@ -4,6 +4,7 @@ CONSTANTS
   Pool <- PoolA
   MaxLevel = 2
   MaxLearnt = 2
+  CheckPool <- NoChecks
   LoseWatchBug = TRUE
 CONSTRAINT Bounded
 INVARIANT WatchInv
